@@ -425,7 +425,7 @@ theorem value_cross (n : Nat) (c p : Bool) (s : PState) (r R : Nat) (sr sR : PSt
     (hr : (value n c p).run (setL r s) = .ok () sr) (hR : (value n c p).run (setL R s) = .ok () sR)
     (hfree : sR.recHigh ≤ R) :
     sr.recHigh = min sR.recHigh (r + 1) ∧ (HasLim sr.errors ↔ (sR.recHigh > r ∨ HasLim sR.errors)) := by
-  rcases (xAll n).valueX c p s r R () () sr sR hrR hc hh g trivial hr hR hfree with ⟨t, e1, e2, _, th, _, _⟩ | ⟨d1, d2, d3⟩
+  rcases (xAll n).valueX c p s r R () () sr sR hrR hc hh g trivial hr hR with ⟨t, e1, e2, _, th, _, _⟩ | ⟨d1, d2, d3⟩
   · subst e1 e2
     refine ⟨?_, ?_⟩
     · show t.recHigh = min t.recHigh (r + 1)
